@@ -34,7 +34,10 @@ func VerifyFunc(P *Program, fn *ssa.Function, spec *FuncSpec, prop string) (ex *
 			case specErr:
 				err = e
 			default:
-				panic(r)
+				// an internal failure of the generator on this function (e.g. a contract clause that no longer
+				// type-checks against changed code): the function is not verified - reported like any other
+				// function whose obligations cannot be generated, never a crash of the whole check
+				err = fmt.Errorf("internal error of the VC generator: %v", r)
 			}
 		}
 	}()
